@@ -722,10 +722,12 @@ type quietCase struct {
 	LingerMs  int    `json:"write_lingers_ms"`
 	Cycles    int    `json:"suspend_resume_cycles"`
 	QueueSize int    `json:"queue_size"`
+	// CloseSuspended: Close is called between a Suspend and the Resume
+	CloseSuspended bool `json:"close_while_suspended,omitempty"`
 }
 
 func runQuietShutdown(w *harness.W, r gen.R) bool {
-	qc := quietCase{Caps: []uint32{0, 0x1ffff, uint32(r.Int63()) & 0x1ffff}[r.Intn(3)], LingerMs: []int{0, 5, 30}[r.Intn(3)], Cycles: r.Intn(3), QueueSize: []int{16, 1024}[r.Intn(2)]}
+	qc := quietCase{Caps: []uint32{0, 0x1ffff, uint32(r.Int63()) & 0x1ffff}[r.Intn(3)], LingerMs: []int{0, 5, 30}[r.Intn(3)], Cycles: r.Intn(3), QueueSize: []int{16, 1024}[r.Intn(2)], CloseSuspended: r.Intn(4) == 0}
 	cj, _ := json.Marshal(qc)
 	w.Begin(string(cj))
 	defer w.End()
@@ -760,8 +762,8 @@ func runQuietShutdown(w *harness.W, r gen.R) bool {
 			case <-sess.Vx.Events():
 			case <-timeout:
 				dump := harness.AllStacks()
-				if strings.Contains(dump, "ansi.(*Parser).WaitClose") {
-					w.ViolationStack("shutdown:"+name+"-never-returns:quiet-terminal", name+" did not return on a terminal that answered the wake-up query while the write was still returning: the input goroutine went back to a blocking read before it was told to stop", qc, "blocked in WaitClose after 20s", "returns", dump[:min(len(dump), 6000)])
+				if strings.Contains(dump, "ansi.(*Parser).WaitClose") || strings.Contains(dump, "ansi.(*Parser).Close") {
+					w.ViolationStack("shutdown:"+name+"-never-returns:quiet-terminal", name+" did not return on a quiet terminal (no input but the terminal's own replies; the write of the wake-up query lingers "+fmt.Sprint(qc.LingerMs)+"ms after the terminal has answered): the shutdown handshake with the input goroutine did not complete", qc, "blocked in the parser shutdown handshake after 20s", "returns", dump[:min(len(dump), 6000)])
 				} else {
 					w.Inconclusive(name + "-timeout-without-corroboration")
 				}
@@ -776,6 +778,17 @@ func runQuietShutdown(w *harness.W, r gen.R) bool {
 		if !step("resume", func() { sess.Vx.Resume() }) {
 			return false
 		}
+	}
+	if qc.CloseSuspended {
+		// the application quits while it is suspended
+		if !step("suspend", func() { sess.Vx.Suspend() }) {
+			return false
+		}
+		if !step("close-while-suspended", func() { sess.Vx.Close() }) {
+			return false
+		}
+		w.Sample(qc)
+		return true
 	}
 	if !step("close", func() { sess.Vx.Close() }) {
 		return false
